@@ -30,7 +30,8 @@ theorem generated_constants :
     C14.sendShifts = [24, 16, 8, 0] ∧ C14.recvShifts = [24, 16, 8, 0] ∧
     C14.sendCounter = 0 ∧ C14.recvCounter = 0 ∧ C14.recvCheckBeforeBody = true ∧
     C14.sendHoldsSessionLock = true ∧
-    C14.recvKeySnapshotAfterFrame = true ∧ C14.sendKeySnapshotInCall = true := by decide
+    C14.recvKeySnapshotAfterFrame = true ∧ C14.sendKeySnapshotInCall = true ∧
+    C14.acceptedSessionHasNoRecvTimeout = true := by decide
 
 /-- every size guard of the transport refuses exactly the sizes above 1 MiB -/
 theorem generated_guards (n : Nat) :
